@@ -52,7 +52,8 @@ def prim_graph(v, tier, d):
     succ = {}
     for a, b, lab in edges:
         succ.setdefault(a, set()).add(b)
-    nodes = [{"id": k, "p": list(st["pc"]["p"]), "s": st["pc"]["s"], "e": st["pc"]["e"]} for k, st in states.items() if st["pdepth"] < maxdepth]
+    gap = 64 if tier == "quick" else 256          # the Gap constant of the configuration
+    nodes = [{"id": k, "p": list(st["pc"]["p"]), "s": st["pc"]["s"], "e": st["pc"]["e"], "gap": gap} for k, st in states.items() if st["pdepth"] < maxdepth]
     real = run_driver("contour_graph.py", nodes, d, "prim")
     nedge = 0
     bad = 0
